@@ -95,6 +95,12 @@ func (r *RNN) Apply(inputs []tensor.Tensor) ([]tensor.Tensor, error) {
 	Ht := inputs[5]
 	if Ht == nil {
 		Ht = ops.ZeroTensor(1, batchSize, r.hiddenSize)
+	} else {
+		// The initial state is reshaped below, work on a copy so the input stays as it is.
+		var ok bool
+		if Ht, ok = Ht.Clone().(tensor.Tensor); !ok {
+			return nil, ops.ErrTypeAssert("tensor.Tensor", inputs[5].Clone())
+		}
 	}
 
 	// Reshape the hidden tensor without the bidirectional dimension, as
